@@ -18,6 +18,7 @@ theorem C07_accept_iff (cfg : Cfg) (file : String) (names predefs : List (String
     (name : String) (pos : Option Pos) (rest : List PVal) :
     (∃ r, action cfg file names predefs t 0 (⟨.str name, pos⟩ :: rest) = .ok r) ↔
       (verify file t = [] ∧ t.errs = [] ∧ cfgVerify t = [] ∧ precVerify t.levels = []) := by
+  have hs := sortStr_nil_iff (cfgVerify t)
   simp only [action]
   constructor
   · rintro ⟨r, h⟩
@@ -27,16 +28,17 @@ theorem C07_accept_iff (cfg : Cfg) (file : String) (names predefs : List (String
       · cases h
       · rename_i hneg
         simp only [Classical.not_imp, Classical.not_not] at hneg
-        exact ⟨hv, hneg.1, hneg.2.1, hneg.2.2⟩
+        exact ⟨hv, hneg.1, hs.mp hneg.2.1, hneg.2.2⟩
     · simp [hv] at h
   · rintro ⟨hv, he, hc, hp⟩
-    simp [hv, he, hc, hp]
+    simp [hv, he, hs.mpr hc, hp]
 
-/-- When rejected, the diagnostics are exactly those of the checkers — nothing else is reported. -/
+/-- When rejected, the diagnostics are exactly those of the checkers — nothing else is reported; the grammar's
+    diagnostics come ordered by their text (the repair 26371be: the dependency visits its sets in no particular order). -/
 theorem C07_diagnostics (cfg : Cfg) (file : String) (names predefs : List (String × String)) (t : SymTab)
     (rhs : List PVal) (ds : List String)
     (h : action cfg file names predefs t 0 rhs = .err ds) :
-    ds = t.errs ++ verify file t ∨ ds = t.errs ++ cfgVerify t ++ precVerify t.levels := by
+    ds = t.errs ++ verify file t ∨ ds = t.errs ++ sortStr (cfgVerify t) ++ precVerify t.levels := by
   simp only [action] at h
   by_cases hv : verify file t = []
   · simp [hv] at h
@@ -128,7 +130,7 @@ theorem C07_diagnostics_sound (cfg : Cfg) (file : String) (names predefs : List 
   · rw [hd, List.mem_append, List.mem_append] at hm
     rcases hm with (h1 | h2) | h3
     · exact Or.inl h1
-    · rcases cfgVerify_sound t m h2 with a | b | c | d
+    · rcases cfgVerify_sound t m ((sortStr_perm _).mem_iff.mp h2) with a | b | c | d
       · exact Or.inr (Or.inr (Or.inr (Or.inr (Or.inr (Or.inl a)))))
       · exact Or.inr (Or.inr (Or.inr (Or.inr (Or.inl b))))
       · exact Or.inr (Or.inr (Or.inr (Or.inr (Or.inr (Or.inr (Or.inl c))))))
